@@ -106,15 +106,19 @@ int live_describe(char *buf, size_t len, int max)
 char g_last_fail_chain[512];
 static void record_fail_chain(void)
 {
-    void *bt[10]; int n = backtrace(bt, 10); size_t off = 0; char tmp[32]; int first = 1;
+    void *bt[12]; int n = backtrace(bt, 12); size_t off = 0; char tmp[32]; int first = 1, named = 0;
     g_last_fail_chain[0] = 0;
     for (int i = 0; i < n; ++i) {
         const char *s = symname(bt[i], tmp, sizeof tmp);
         if (strstr(s, "record_fail_chain") || strstr(s, "__wrap_") || strstr(s, "should_fail")) continue;
+        if (s[0] == '0' && s[1] == 'x') continue;                      /* unresolved (static) frame */
+        if (!strcmp(s, "superlu_malloc") || !strcmp(s, "intMalloc") || !strcmp(s, "intCalloc") || strstr(s, "Malloc") || strstr(s, "Calloc")) { if (first) continue; }
+        if (++named > 3) break;
         if (!strcmp(s, "main") || strstr(s, "prop_") || strstr(s, "run_child") || strstr(s, "__libc")) break;
         off += snprintf(g_last_fail_chain + off, sizeof g_last_fail_chain - off, "%s%s", first ? "" : "<-", s); first = 0;
         if (off >= sizeof g_last_fail_chain - 1) break;
     }
+    { extern void hx_ctx_add(const char *); char w[200]; snprintf(w, sizeof w, "failchain=%.180s", g_last_fail_chain); hx_ctx_add(w); }
 }
 static int should_fail(void)
 {
